@@ -378,14 +378,13 @@ Proof.
   destruct (find_ct (f_reftable f) l), (find_ct (f_reftable f) l'); try reflexivity; contradiction.
 Qed.
 
-Lemma drop_blocked_sim n l l' : Forall2 ct_sim l l' -> drop_blocked n l = drop_blocked n l'.
+Lemma graph_of_sim l l' : Forall2 ct_sim l l' -> graph_of l = graph_of l'.
 Proof.
-  intros F. unfold drop_blocked. apply (existsb_Forall2 _ _ _ _ _ F). intros c c' S.
-  rewrite (ct_sim_inv _ _ S), t_fks_with.
-  apply existsb_ext'. intros f. f_equal. f_equal; [f_equal|f_equal].
-  - apply existsb_ext'. intros g. now apply fk_missing_parent_sim.
-  - apply existsb_ext'. intros g. f_equal. now apply fk_missing_parent_sim.
+  intros F. unfold graph_of. induction F as [|c c' l l' S F IH]; [reflexivity|]. cbn [map]. rewrite IH. f_equal.
+  rewrite (ct_sim_inv _ _ S), t_fks_with. f_equal.
 Qed.
+Lemma drop_blocked_sim n l l' : Forall2 ct_sim l l' -> drop_blocked n l = drop_blocked n l'.
+Proof. intros F. unfold drop_blocked. rewrite (graph_of_sim _ _ F). reflexivity. Qed.
 
 Lemma droppable_sim d a n : sim d a -> droppable d n = droppable a n.
 Proof. intros (Ef & _ & F). unfold droppable. now rewrite Ef, (drop_blocked_sim _ _ _ F). Qed.
